@@ -1,9 +1,10 @@
 #!/bin/bash
 # seedrun.sh [seed-dir-names...]: apply each seeded patch to /repo, run its property's check, report detected/missed, revert.
 cd /verif
-seeds=${@:-$(ls seeded)}
+SD=${SEED_DIR:-/verif/seeded}
+seeds=${@:-$(ls $SD)}
 for s in $seeds; do
-  d=/verif/seeded/$s
+  d=$SD/$s
   prop=$(python3 -c "import json;print(json.load(open('$d/meta.json'))['property'])")
   if ! git -C /repo diff --quiet; then echo "/repo is dirty, refusing"; exit 2; fi
   if ! git -C /repo apply $d/patch.diff 2>/dev/null; then echo "$s: PATCH-DOES-NOT-APPLY"; continue; fi
